@@ -24,6 +24,9 @@ RULE = (
     "+ one query (root Parent/Child/Node; boolean filter tree; optional inner/outer join along a relationship; DISTINCT; total ORDER BY; LIMIT/OFFSET) "
     "+ 3-7 assignments (strategy per relationship path of depth<=2 from default/lazyload/joinedload outer+inner/subqueryload/selectinload(chunksize)/immediateload; "
     "column options defer/undefer/undefer_group/load_only on root or path; yield_per; forced unique(); legacy Query). "
+    "shapes: generated mapping shape -- composite-PK parents (2-3 key columns) with permuted column / PrimaryKeyConstraint / Mapper(primary_key) order, child FK columns and "
+    "ForeignKeyConstraint pairs in permuted order, optional explicit primaryjoin with permuted and flipped conjuncts, many-to-many through an association table with permuted "
+    "columns; keys from a tiny domain (mirrored values); 3-6 strategy assignments over paths of depth<=2, roots Parent and Child. "
     "pairs: every ordered pair of strategies on every nested path (a, a.b) x 4 (quick) / 5 (thorough) query shapes on two fixed data sets; chunk: selectin key-chunk boundary (500/501/1001 keys; thorough also 499/1000). "
     "Non-trivial: some assignment has LIMIT/OFFSET or DISTINCT together with an eager-loaded collection, or two different non-default strategies on nested paths; "
     "distinct = canonical JSON of the case"
@@ -713,8 +716,11 @@ def check_chunk(case, ctx):
 
 
 def subs(tier):
+    from checks import _c40_shapes as sh
+
     return [
-        Generated("gen", check_gen, strategy=_cases(), quick=640, thorough=12000, budget_s_quick=22.0),
+        Generated("shapes", sh.check_shapes, strategy=sh.cases(), quick=400, thorough=8000, budget_s_quick=9.0),
+        Generated("gen", check_gen, strategy=_cases(), quick=560, thorough=12000, budget_s_quick=17.0),
         Enumerated("pairs", check_pairs, cases=_pair_cases),
         Enumerated("chunk", check_chunk, cases=_chunk_cases),
     ]
